@@ -30,7 +30,8 @@ def run(tier, seed, replay=None):
             raise Infra("RespMC failed (rc=%s): the reference no longer proves the round-trip theorem\n%s" % (mc.rc, mc.out[-3000:]))
         trace = sc.path("trace.ndjson")
         inp = {"seed": seed, "trees": 6000 if thorough else 250, "streams": 30000 if thorough else 800,
-               "mutate": 2000 if thorough else 45, "trace": trace}
+               "mutate": 2000 if thorough else 45, "trace": trace,
+               "conc_reps": 1500000 if thorough else 300000}
         rc, out, err = vlib.run_vdrv(["resp"], stdin=json.dumps(inp), timeout=3000)
         if rc != 0:
             raise Infra("vdrv resp failed rc=%s: %s" % (rc, err[-2000:]))
